@@ -395,11 +395,12 @@ def judge_calls(calls, listeners, inst, prop, read, feat, hits, removed=()):
                 kind = ('removed' if label in removed else
                         'other_instance' if inst not in insts
                         else 'not_subscribed')
+                gone = ('removed from this transform; '
+                        if label in removed else '')
                 raise Violation(
                     'no_cross_talk',
                     f'{prop} assigned on t{inst}: listener {label} '
-                    f'({"removed from this transform; " if label in removed else ""}'
-                    f'registered on {list(insts)} for '
+                    f'({gone}registered on {list(insts)} for '
                     f'{sorted(subscribed)}) was called',
                     kind=kind, **feat)
             if inst not in insts and event in subscribed:
@@ -789,7 +790,7 @@ def run_subset_case(case):
     return {'calls': 2 + len(calls), 'hits': dict(hits), 'key': repr(case)}
 
 
-# -- E3: registration histories ------------------------------------------------
+# -- E3: registration histories ---------------------------------------------
 # Every sequence of add_handler / remove_handler / assignment operations on
 # two transforms and two listener objects, not merged on states: registering a
 # listener that is registered leaves ONE listener, a removed listener hears
